@@ -36,6 +36,7 @@ var (
 )
 
 type file struct {
+	m       *mnt
 	shmH    fs.Handle
 	shmNode fs.Node
 	regions map[int][]byte
@@ -51,14 +52,55 @@ func tr(format string, a ...any) { Trace = append(Trace, fmt.Sprintf(format, a..
 var regOnce sync.Once
 
 // Use points the VFS at a store and its FUSE root (registering the VFS on first use).
+type mnt struct {
+	store *litefs.Store
+	root  *lfuse.RootNode
+}
+
+var mounts = map[string]*mnt{}
+
+// OnOp, if set, is called before every mutating file operation SQLite issues
+// (write, truncate, sync, delete, lock changes): a step boundary for crash images.
+var OnOp func(op string)
+
+func onOp(format string, a ...any) {
+	if OnOp != nil {
+		OnOp(fmt.Sprintf(format, a...))
+	}
+}
+
+// Mount makes a second (third, ...) store reachable: databases are then opened as
+// "file:/<prefix>/<name>?vfs=litefs". Use registers the default mount (no prefix).
+func Mount(prefix string, store *litefs.Store, root *lfuse.RootNode) {
+	Use(nil, nil)
+	mu.Lock()
+	mounts[prefix] = &mnt{store, root}
+	mu.Unlock()
+}
+
+// resolve splits a VFS path into its mount and the file name inside it.
+func resolve(zName string) (*mnt, string) {
+	name := strings.TrimPrefix(zName, "/")
+	if i := strings.IndexByte(name, '/'); i >= 0 {
+		if m := mounts[name[:i]]; m != nil {
+			return m, name[i+1:]
+		}
+	}
+	return mounts[""], name
+}
+
 func Use(store *litefs.Store, root *lfuse.RootNode) {
 	regOnce.Do(func() {
 		if rc := int(C.registerLitefsVfs()); rc != 0 {
 			panic(fmt.Sprintf("sqlite3_vfs_register: %d", rc))
 		}
 	})
+	if store == nil {
+		return
+	}
 	mu.Lock()
 	Store, Root, Trace = store, root, nil
+	mounts[""] = &mnt{store, root}
 	mu.Unlock()
 }
 
@@ -68,7 +110,11 @@ var ctx = context.Background()
 func goOpen(zName *C.char, flags C.int) C.int {
 	mu.Lock()
 	defer mu.Unlock()
-	name := strings.TrimPrefix(C.GoString(zName), "/")
+	m, name := resolve(C.GoString(zName))
+	if m == nil {
+		return -1
+	}
+	Root := m.root
 	tr("open %s flags=%x", name, int(flags))
 	node, err := Root.Lookup(ctx, name)
 	var h fs.Handle
@@ -92,7 +138,7 @@ func goOpen(zName *C.char, flags C.int) C.int {
 	}
 	id := nextID
 	nextID++
-	files[id] = &file{name: name, node: node, h: h, owner: uint64(1000 + id)}
+	files[id] = &file{m: m, name: name, node: node, h: h, owner: uint64(1000 + id)}
 	return C.int(id)
 }
 
@@ -139,6 +185,7 @@ func goWrite(id C.int, buf unsafe.Pointer, n C.int, off C.sqlite3_int64) C.int {
 	defer mu.Unlock()
 	f := files[int(id)]
 	data := C.GoBytes(buf, n)
+	onOp("write %s off=%d n=%d", f.name, int64(off), int(n))
 	tr("write %s off=%d n=%d", f.name, int64(off), int(n))
 	var resp bfuse.WriteResponse
 	if err := f.h.(fs.HandleWriter).Write(ctx, &bfuse.WriteRequest{Data: data, Offset: int64(off), LockOwner: bfuse.LockOwner(f.owner)}, &resp); err != nil {
@@ -153,6 +200,7 @@ func goTruncate(id C.int, sz C.sqlite3_int64) C.int {
 	mu.Lock()
 	defer mu.Unlock()
 	f := files[int(id)]
+	onOp("truncate %s sz=%d", f.name, int64(sz))
 	tr("truncate %s sz=%d", f.name, int64(sz))
 	var resp bfuse.SetattrResponse
 	if err := f.node.(fs.NodeSetattrer).Setattr(ctx, &bfuse.SetattrRequest{Valid: bfuse.SetattrSize, Size: uint64(sz)}, &resp); err != nil {
@@ -167,6 +215,7 @@ func goSync(id C.int, flags C.int) C.int {
 	mu.Lock()
 	defer mu.Unlock()
 	f := files[int(id)]
+	onOp("sync %s", f.name)
 	tr("sync %s", f.name)
 	if s, ok := f.node.(fs.NodeFsyncer); ok {
 		if err := s.Fsync(ctx, &bfuse.FsyncRequest{}); err != nil {
@@ -260,6 +309,7 @@ func goUnlock(id C.int, lvl C.int) C.int {
 	mu.Lock()
 	defer mu.Unlock()
 	f := files[int(id)]
+	onOp("unlock %s %d->%d", f.name, f.lvl, int(lvl))
 	tr("unlock %s %d->%d", f.name, f.lvl, int(lvl))
 	want := int(lvl)
 	if f.lvl <= want {
@@ -300,7 +350,12 @@ func goCheckReserved(id C.int, out *C.int) C.int {
 func goDelete(zName *C.char) C.int {
 	mu.Lock()
 	defer mu.Unlock()
-	name := strings.TrimPrefix(C.GoString(zName), "/")
+	m, name := resolve(C.GoString(zName))
+	if m == nil {
+		return C.SQLITE_IOERR_DELETE
+	}
+	Root := m.root
+	onOp("delete %s", name)
 	tr("delete %s", name)
 	if err := Root.Remove(ctx, &bfuse.RemoveRequest{Name: name}); err != nil {
 		tr("delete err %v", err)
@@ -314,7 +369,11 @@ func goDelete(zName *C.char) C.int {
 func goAccess(zName *C.char, flags C.int) C.int {
 	mu.Lock()
 	defer mu.Unlock()
-	name := strings.TrimPrefix(C.GoString(zName), "/")
+	m, name := resolve(C.GoString(zName))
+	if m == nil {
+		return 0
+	}
+	Root := m.root
 	node, err := Root.Lookup(ctx, name)
 	if err != nil {
 		return 0
@@ -334,6 +393,7 @@ func goShmMap(id C.int, region C.int, sz C.int, extend C.int, pp *unsafe.Pointer
 	defer mu.Unlock()
 	f := files[int(id)]
 	*pp = nil
+	Root, Store := f.m.root, f.m.store
 	shmName := f.name + "-shm"
 	if f.shmH == nil {
 		node, err := Root.Lookup(ctx, shmName)
@@ -419,6 +479,7 @@ func goShmLock(id C.int, ofst C.int, n C.int, flags C.int) C.int {
 	mu.Lock()
 	defer mu.Unlock()
 	f := files[int(id)]
+	onOp("shmlock %s ofst=%d n=%d flags=%d", f.name, int(ofst), int(n), int(flags))
 	start := uint64(120 + int(ofst))
 	end := start + uint64(n) - 1
 	l := f.shmH.(fs.HandlePOSIXLocker)
@@ -465,6 +526,7 @@ func goShmUnmap(id C.int, del C.int) C.int {
 	}
 	f.shmH = nil
 	if del != 0 {
+		Root := f.m.root
 		Root.Remove(ctx, &bfuse.RemoveRequest{Name: f.name + "-shm"})
 		Root.ForgetNodeByName(f.name + "-shm")
 	}
